@@ -952,6 +952,13 @@ class C17(Check):
                         # a write-protected file (mode 0444) of the same user
                         os.chmod(rel, 0o444)
                         res.stats["probe.target_is_write_protected"] += 1
+                    if prng.random() < 0.08:
+                        # odd but valid file times: the epoch, or far beyond
+                        # year 9999 (what CIFS reports for "never")
+                        when = prng.choice([0, 2**31 + 5, 253402300800 + 86400,
+                                            3 * 10**11])
+                        os.utime(rel, (when, when))
+                        res.stats["probe.target_with_odd_file_time"] += 1
                 if dir_times and prng.random() < 0.35:
                     # the files arrived the way tar / rsync -a / cp -a bring
                     # them (directory times restored afterwards), or on a file
